@@ -9,6 +9,8 @@ import (
 	"os/exec"
 	"runtime/debug"
 	"sort"
+	"sync/atomic"
+	"time"
 
 	"github.com/jub0bs/cors/internal/zzverif/vlib"
 )
@@ -43,6 +45,35 @@ type Checker[K any] struct {
 	C     *vlib.Ctx
 	Judge func(K) *vlib.Failure
 	Test  func(K) string // text of a plain _test.go reproducing the case (may be nil)
+	// Watchdog > 0: a judge that has not returned after this time is a failure (a call of the code under test that
+	// never returns yields no answer). For checks whose cases make control calls; costs a goroutine per case.
+	Watchdog time.Duration
+}
+
+// hung is set by the first judge that ran into the watchdog: the goroutine it left behind may hold a lock of the
+// harness or of the code under test, so later judges of this process are not to be trusted (and are not waited for
+// as long).
+var hung atomic.Bool
+
+func (ck *Checker[K]) judge(k K) *vlib.Failure {
+	if ck.Watchdog <= 0 {
+		return vlib.Guard(func() *vlib.Failure { return ck.Judge(k) })
+	}
+	d := ck.Watchdog
+	if hung.Load() {
+		d /= 4
+	}
+	done := make(chan *vlib.Failure, 1)
+	go func() { done <- vlib.Guard(func() *vlib.Failure { return ck.Judge(k) }) }()
+	t := time.NewTimer(d)
+	defer t.Stop()
+	select {
+	case f := <-done:
+		return f
+	case <-t.C:
+		hung.Store(true)
+		return vlib.Failf("the case did not finish within %v: a call into the library never returned (deadlock or endless loop)", ck.Watchdog)
+	}
 }
 
 // Try judges one case; it returns true if the case passed.
@@ -52,7 +83,7 @@ func (ck *Checker[K]) Try(k K) bool {
 	}
 	ck.C.Evaluations.Add(1)
 	ck.C.Quiesce.RLock()
-	f := vlib.Guard(func() *vlib.Failure { return ck.Judge(k) })
+	f := ck.judge(k)
 	ck.C.Quiesce.RUnlock()
 	if f == nil {
 		return true
@@ -67,7 +98,7 @@ func (ck *Checker[K]) Report(k K, f *vlib.Failure) {
 	if ck.Test != nil {
 		txt = ck.Test(k)
 	}
-	ck.C.Violation(k, f, func() *vlib.Failure { return vlib.Guard(func() *vlib.Failure { return ck.Judge(k) }) }, txt)
+	ck.C.Violation(k, f, func() *vlib.Failure { return ck.judge(k) }, txt)
 }
 
 // Replay runs the witness of a replay file (if one was given) and reports whether it did.
